@@ -179,7 +179,10 @@ static void golden(Report & R, const std::string & dir, bool write)
 struct Shared {
     char desc[512];
     long cases;
+    long caseno;  // index of the case being executed within the current stack
 };
+static long g_only_caseno = -1;  // >= 0: execute just this case (confirmation run of a suspected hang)
+static unsigned g_case_alarm = 10;
 static Shared * g_sh = nullptr;
 static unsigned g_vg_errors = 0;
 
@@ -210,7 +213,14 @@ static void faults_for(Report & R, const IoEntry & E, bool thorough, long stride
 {
     const std::string D = E.dump(0, -1);
     long caseno = 0;
-    auto take = [&]() { return (caseno++ % stride) == 0; };
+    auto take = [&]() {
+        const long me = caseno++;
+        if (g_only_caseno >= 0) return me == g_only_caseno;
+        if ((me % stride) != 0) return false;
+        g_sh->caseno = me;
+        alarm(g_case_alarm);  // re-armed for every case: a load that does not come back is a hang, not a slow check
+        return true;
+    };
     // (1) every proper prefix
     for (size_t k = 0; k < D.size(); ++k)
         if (take()) must_throw(R, E, D.substr(0, k), -1, "truncated", E.name + " prefix " + std::to_string(k) + "/" + std::to_string(D.size()));
@@ -294,8 +304,8 @@ static void faults(Report & R0, bool thorough, long stride, long shard, long nsh
         pid_t pid = fork();
         if (pid == 0) {
             Report R("faults/" + E.name);
-            alarm(thorough ? 600 : 240);
             faults_for(R, E, thorough, stride);
+            alarm(0);
             R.emit();
             std::fflush(stdout);
             _exit(0);
@@ -303,8 +313,35 @@ static void faults(Report & R0, bool thorough, long stride, long shard, long nsh
         int status = 0;
         waitpid(pid, &status, 0);
         if (!(WIFEXITED(status) && WEXITSTATUS(status) == 0)) {
-            std::string how = WIFSIGNALED(status) ? (WTERMSIG(status) == SIGALRM ? "did not finish (hang)" : "was killed by signal " + std::to_string(WTERMSIG(status))) : "exited with status " + std::to_string(WEXITSTATUS(status));
-            R0.viol("crash:" + E.key, "loading a damaged stream " + how + " instead of throwing", g_sh->desc);
+            bool confirmed = true;
+            if (WIFSIGNALED(status) && WTERMSIG(status) == SIGALRM) {
+                // re-run the timed-out case alone with a longer limit before calling it a hang
+                const long k = g_sh->caseno;
+                const std::string desc = g_sh->desc;
+                std::fflush(stdout);
+                pid_t p2 = fork();
+                if (p2 == 0) {
+                    Report R("faults-confirm/" + E.name);
+                    g_only_caseno = k;
+                    alarm(RUNNING_ON_VALGRIND ? 120 : 30);
+                    faults_for(R, E, thorough, 1);
+                    _exit(0);
+                }
+                int st2 = 0;
+                waitpid(p2, &st2, 0);
+                confirmed = !(WIFEXITED(st2) && WEXITSTATUS(st2) == 0);
+                std::snprintf(g_sh->desc, sizeof g_sh->desc, "%s", desc.c_str());
+                if (!confirmed) R0.counters["slow_cases_not_hangs"]++;
+            }
+            if (confirmed) {
+                std::string how = WIFSIGNALED(status) ? (WTERMSIG(status) == SIGALRM ? "did not return within the time limit, also when re-run alone (hang)" : "was killed by signal " + std::to_string(WTERMSIG(status))) : "exited with status " + std::to_string(WEXITSTATUS(status));
+                R0.viol((WIFSIGNALED(status) && WTERMSIG(status) == SIGALRM ? "hang:" : "crash:") + E.key, "loading a damaged stream " + how + " instead of throwing", g_sh->desc);
+                if (++R0.counters["stacks_with_fatal_outcome"] >= 3) {
+                    // the verdict is settled; do not spend hours waiting for the same hang on every remaining stack
+                    R0.counters["shard_aborted_after_3_fatal_outcomes"] = 1;
+                    break;
+                }
+            }
         }
         ++R0.states;
     }
@@ -329,6 +366,7 @@ int main(int argc, char ** argv)
     } else if (mode == "faults") {
         long stride = argc > 3 ? std::atol(argv[3]) : 1;
         long shard = argc > 4 ? std::atol(argv[4]) : 0, nshards = argc > 5 ? std::atol(argv[5]) : 1;
+        if (RUNNING_ON_VALGRIND) g_case_alarm = 60;
         faults(R, a2 == "thorough", stride, shard, nshards);
     } else if (mode == "list") {
         for (auto & E : io_registry()) std::printf("%s\n", E.name.c_str());
